@@ -78,10 +78,27 @@ type C12Msg struct {
 	F []C12Fld `json:"f,omitempty"`
 }
 
+// C12Step is one step of a history over ONE message object: an encoder/decoder call on
+// the object (Op = "proto.Marshal", "proto.Size", "MarshalVT", "SizeVT", "proto.Unmarshal"
+// (reset + decode), "proto.Merge" (decode without reset), "UnmarshalVT" (merges into the
+// object)) or Op = "set": modify the object IN PLACE (protoreflect Set/Clear/Mutable,
+// list append/truncate, map insert/delete, nested messages mutated, never replaced at the
+// top) until it has the value described by To. Decoding steps decode the reflection
+// encoding of a separate, freshly built message of the value last named (Msg or To).
+type C12Step struct {
+	Op string  `json:"op"`
+	To *C12Msg `json:"to,omitempty"`
+}
+
 type C12Case struct {
 	Type   string `json:"type"`   // full protobuf name of the message type
-	Origin string `json:"origin"` // "random" or "sweep:<what>"
-	Msg    C12Msg `json:"msg"`
+	Origin string `json:"origin"` // "random", "random-hist-edit", "random-hist-indep" or "sweep:<what>"
+	Msg    C12Msg `json:"msg"`    // the value the object is built with
+	// Hist: steps executed on the object before it is judged; the object is judged against
+	// the value of the last "set" (or Msg). Empty: the freshly built message is judged.
+	Hist []C12Step `json:"hist,omitempty"`
+	// Order in which the oracle uses the codecs on the object: "" / "proto-first" or "vt-first".
+	Order string `json:"order,omitempty"`
 }
 
 // ---- descriptor access ----------------------------------------------------------------
@@ -325,11 +342,17 @@ func c12Build(c C12Case) (proto.Message, c12Type, c12BuildInfo, error) {
 	if !ok {
 		return nil, ty, bi, fmt.Errorf("unknown message type %q", c.Type)
 	}
+	m, err := c12Fresh(ty, &c.Msg, &bi)
+	return m, ty, bi, err
+}
+
+// c12Fresh builds a new message object of type ty with the value described by tree.
+func c12Fresh(ty c12Type, tree *C12Msg, bi *c12BuildInfo) (proto.Message, error) {
 	m := ty.mt.New()
-	if err := c12Fill(m, &c.Msg, &bi); err != nil {
-		return nil, ty, bi, err
+	if err := c12Fill(m, tree, bi); err != nil {
+		return nil, err
 	}
-	return m.Interface(), ty, bi, nil
+	return m.Interface(), nil
 }
 
 // ---- classification --------------------------------------------------------------------
@@ -497,10 +520,9 @@ func c12Walk(md protoreflect.MessageDescriptor, tree *C12Msg, depth int, st *c12
 	}
 }
 
-func c12Classes(c C12Case, ty c12Type) ([]string, bool) {
+func c12Classes(origin string, tree *C12Msg, ty c12Type) ([]string, bool) {
 	var st c12Stats
-	c12Walk(ty.md, &c.Msg, 0, &st)
-	origin := c.Origin
+	c12Walk(ty.md, tree, 0, &st)
 	if i := strings.IndexByte(origin, ':'); i >= 0 {
 		origin = origin[:i]
 	}
@@ -525,7 +547,7 @@ func c12Classes(c C12Case, ty c12Type) ([]string, bool) {
 	add(st.negInt, "negative_int")
 	add(st.scalarZero, "scalar_zero_listed")
 	add(st.emptyKey, "map_empty_key")
-	if len(c.Msg.F) == 0 {
+	if len(tree.F) == 0 {
 		cl = append(cl, "empty_message")
 	}
 	// non-trivial: at least one populated field that is a sub-message (incl. an optional
@@ -565,119 +587,145 @@ func c12Hex(b []byte) string {
 	return hex.EncodeToString(b)
 }
 
-// c12Judge runs the oracle on m (a message of type ty). It returns "" or the verdict.
-func c12Judge(m proto.Message, ty c12Type) (verdict string, hist map[string]any, hasVT bool) {
+// c12Judge runs the oracle on m (a message of type ty); want is the value m must have
+// (m itself for a freshly built message, a separate fresh build for history cases).
+// vtFirst selects which codec touches m first. It returns "" or the verdict.
+func c12Judge(m, want proto.Message, ty c12Type, vtFirst bool) (verdict string, hist map[string]any, hasVT bool) {
 	hist = map[string]any{"type": string(ty.md.FullName())}
 	step := "start"
+	name := ty.md.Name()
 	defer func() {
 		if r := recover(); r != nil {
-			verdict = fmt.Sprintf("%s: panic during %s: %v", ty.md.Name(), step, r)
+			verdict = fmt.Sprintf("%s: panic during %s: %v", name, step, r)
 		}
 		if verdict != "" {
-			hist["message"] = c12Text(m)
+			hist["message"] = c12Text(want)
 		}
 	}()
 	fresh := func() proto.Message { return ty.mt.New().Interface() }
 	eq := func(what string, got proto.Message) string {
-		if proto.Equal(got, m) {
+		if proto.Equal(got, want) {
 			return ""
 		}
 		hist["decoded"] = c12Text(got)
-		return fmt.Sprintf("%s: %s is not equal to the original message: got {%s} want {%s}", ty.md.Name(), what, c12Text(got), c12Text(m))
+		return fmt.Sprintf("%s: %s is not equal to the original message: got {%s} want {%s}", name, what, c12Text(got), c12Text(want))
 	}
+	vt, hasVT := m.(c12VT)
 
-	step = "proto.Marshal"
-	b1, err := proto.Marshal(m)
-	if err != nil {
-		return fmt.Sprintf("%s: proto.Marshal failed: %v", ty.md.Name(), err), hist, true
-	}
-	hist["b1_proto"] = c12Hex(b1)
-	step = "proto.Unmarshal(proto.Marshal)"
-	m11 := fresh()
-	if err := proto.Unmarshal(b1, m11); err != nil {
-		return fmt.Sprintf("%s: proto.Unmarshal of proto.Marshal output failed: %v", ty.md.Name(), err), hist, true
-	}
-	if v := eq("proto.Unmarshal(proto.Marshal(m))", m11); v != "" {
-		return v, hist, true
-	}
-
-	vt, ok := m.(c12VT)
-	if !ok {
-		return "", hist, false
-	}
-	step = "MarshalVT"
-	b2, err := vt.MarshalVT()
-	if err != nil {
-		return fmt.Sprintf("%s: MarshalVT failed: %v", ty.md.Name(), err), hist, true
-	}
-	hist["b2_vt"] = c12Hex(b2)
-	step = "SizeVT"
-	n := vt.SizeVT()
-	if n != len(b2) {
-		return fmt.Sprintf("%s: SizeVT() = %d but MarshalVT wrote %d bytes", ty.md.Name(), n, len(b2)), hist, true
-	}
-
-	step = "UnmarshalVT(proto.Marshal)"
-	m12 := fresh()
-	if err := m12.(c12VT).UnmarshalVT(b1); err != nil {
-		return fmt.Sprintf("%s: UnmarshalVT of proto.Marshal output failed: %v", ty.md.Name(), err), hist, true
-	}
-	if v := eq("UnmarshalVT(proto.Marshal(m))", m12); v != "" {
-		return v, hist, true
-	}
-	step = "proto.Unmarshal(MarshalVT)"
-	m21 := fresh()
-	if err := proto.Unmarshal(b2, m21); err != nil {
-		return fmt.Sprintf("%s: proto.Unmarshal of MarshalVT output failed: %v", ty.md.Name(), err), hist, true
-	}
-	if v := eq("proto.Unmarshal(MarshalVT(m))", m21); v != "" {
-		return v, hist, true
-	}
-	step = "UnmarshalVT(MarshalVT)"
-	m22 := fresh()
-	if err := m22.(c12VT).UnmarshalVT(b2); err != nil {
-		return fmt.Sprintf("%s: UnmarshalVT of MarshalVT output failed: %v", ty.md.Name(), err), hist, true
-	}
-	if v := eq("UnmarshalVT(MarshalVT(m))", m22); v != "" {
-		return v, hist, true
-	}
-
-	step = "MarshalToSizedBufferVT"
-	buf := make([]byte, n)
-	k, err := vt.MarshalToSizedBufferVT(buf)
-	if err != nil {
-		return fmt.Sprintf("%s: MarshalToSizedBufferVT into SizeVT()=%d bytes failed: %v", ty.md.Name(), n, err), hist, true
-	}
-	if k != n {
-		return fmt.Sprintf("%s: MarshalToSizedBufferVT wrote %d bytes into a buffer of SizeVT()=%d", ty.md.Name(), k, n), hist, true
-	}
-	hist["b3_sized"] = c12Hex(buf)
-	m3 := fresh()
-	if err := proto.Unmarshal(buf, m3); err != nil {
-		return fmt.Sprintf("%s: proto.Unmarshal of MarshalToSizedBufferVT output failed: %v", ty.md.Name(), err), hist, true
-	}
-	if v := eq("proto.Unmarshal(MarshalToSizedBufferVT(m))", m3); v != "" {
-		return v, hist, true
-	}
-	if to, ok := m.(c12VTTo); ok {
-		step = "MarshalToVT"
-		buf2 := make([]byte, n)
-		k, err := to.MarshalToVT(buf2)
+	var b1, b2 []byte
+	protoBlock := func() string {
+		step = "proto.Marshal"
+		var err error
+		b1, err = proto.Marshal(m)
 		if err != nil {
-			return fmt.Sprintf("%s: MarshalToVT into SizeVT()=%d bytes failed: %v", ty.md.Name(), n, err), hist, true
+			return fmt.Sprintf("%s: proto.Marshal failed: %v", name, err)
+		}
+		hist["b1_proto"] = c12Hex(b1)
+		step = "proto.Unmarshal(proto.Marshal)"
+		m11 := fresh()
+		if err := proto.Unmarshal(b1, m11); err != nil {
+			return fmt.Sprintf("%s: proto.Unmarshal of proto.Marshal output failed: %v", name, err)
+		}
+		if v := eq("proto.Unmarshal(proto.Marshal(m))", m11); v != "" {
+			return v
+		}
+		if !hasVT {
+			return ""
+		}
+		step = "UnmarshalVT(proto.Marshal)"
+		m12 := fresh()
+		if err := m12.(c12VT).UnmarshalVT(b1); err != nil {
+			return fmt.Sprintf("%s: UnmarshalVT of proto.Marshal output failed: %v", name, err)
+		}
+		return eq("UnmarshalVT(proto.Marshal(m))", m12)
+	}
+	vtBlock := func() string {
+		if !hasVT {
+			return ""
+		}
+		var n0 int
+		if vtFirst {
+			step = "SizeVT"
+			n0 = vt.SizeVT()
+		}
+		step = "MarshalVT"
+		var err error
+		b2, err = vt.MarshalVT()
+		if err != nil {
+			return fmt.Sprintf("%s: MarshalVT failed: %v", name, err)
+		}
+		hist["b2_vt"] = c12Hex(b2)
+		step = "SizeVT"
+		n := vt.SizeVT()
+		if n != len(b2) {
+			return fmt.Sprintf("%s: SizeVT() = %d but MarshalVT wrote %d bytes", name, n, len(b2))
+		}
+		if vtFirst && n0 != n {
+			return fmt.Sprintf("%s: SizeVT() = %d before and %d after MarshalVT of the same unchanged message", name, n0, n)
+		}
+		step = "proto.Unmarshal(MarshalVT)"
+		m21 := fresh()
+		if err := proto.Unmarshal(b2, m21); err != nil {
+			return fmt.Sprintf("%s: proto.Unmarshal of MarshalVT output failed: %v", name, err)
+		}
+		if v := eq("proto.Unmarshal(MarshalVT(m))", m21); v != "" {
+			return v
+		}
+		step = "UnmarshalVT(MarshalVT)"
+		m22 := fresh()
+		if err := m22.(c12VT).UnmarshalVT(b2); err != nil {
+			return fmt.Sprintf("%s: UnmarshalVT of MarshalVT output failed: %v", name, err)
+		}
+		if v := eq("UnmarshalVT(MarshalVT(m))", m22); v != "" {
+			return v
+		}
+		step = "MarshalToSizedBufferVT"
+		buf := make([]byte, n)
+		k, err := vt.MarshalToSizedBufferVT(buf)
+		if err != nil {
+			return fmt.Sprintf("%s: MarshalToSizedBufferVT into SizeVT()=%d bytes failed: %v", name, n, err)
 		}
 		if k != n {
-			return fmt.Sprintf("%s: MarshalToVT wrote %d bytes, SizeVT()=%d", ty.md.Name(), k, n), hist, true
+			return fmt.Sprintf("%s: MarshalToSizedBufferVT wrote %d bytes into a buffer of SizeVT()=%d", name, k, n)
 		}
-		m4 := fresh()
-		if err := m4.(c12VT).UnmarshalVT(buf2); err != nil {
-			return fmt.Sprintf("%s: UnmarshalVT of MarshalToVT output failed: %v", ty.md.Name(), err), hist, true
+		hist["b3_sized"] = c12Hex(buf)
+		m3 := fresh()
+		if err := proto.Unmarshal(buf, m3); err != nil {
+			return fmt.Sprintf("%s: proto.Unmarshal of MarshalToSizedBufferVT output failed: %v", name, err)
 		}
-		if v := eq("UnmarshalVT(MarshalToVT(m))", m4); v != "" {
-			return v, hist, true
+		if v := eq("proto.Unmarshal(MarshalToSizedBufferVT(m))", m3); v != "" {
+			return v
 		}
+		if to, ok := m.(c12VTTo); ok {
+			step = "MarshalToVT"
+			buf2 := make([]byte, n)
+			k, err := to.MarshalToVT(buf2)
+			if err != nil {
+				return fmt.Sprintf("%s: MarshalToVT into SizeVT()=%d bytes failed: %v", name, n, err)
+			}
+			if k != n {
+				return fmt.Sprintf("%s: MarshalToVT wrote %d bytes, SizeVT()=%d", name, k, n)
+			}
+			m4 := fresh()
+			if err := m4.(c12VT).UnmarshalVT(buf2); err != nil {
+				return fmt.Sprintf("%s: UnmarshalVT of MarshalToVT output failed: %v", name, err)
+			}
+			if v := eq("UnmarshalVT(MarshalToVT(m))", m4); v != "" {
+				return v
+			}
+		}
+		return ""
 	}
-	return "", hist, true
+	if vtFirst {
+		if v := vtBlock(); v != "" {
+			return v, hist, hasVT
+		}
+		return protoBlock(), hist, hasVT
+	}
+	if v := protoBlock(); v != "" {
+		return v, hist, hasVT
+	}
+	return vtBlock(), hist, hasVT
 }
 
 func runC12(c C12Case) ev.Outcome {
@@ -686,9 +734,37 @@ func runC12(c C12Case) ev.Outcome {
 		// only reachable from a hand-edited replay file: the case is outside the domain
 		return ev.Outcome{Excluded: "malformed case: " + err.Error()}
 	}
-	classes, nt := c12Classes(c, ty)
-	verdict, hist, hasVT := c12Judge(m, ty)
+	vtFirst := c.Order == "vt-first"
+	if c.Order != "" && c.Order != "vt-first" && c.Order != "proto-first" {
+		return ev.Outcome{Excluded: "malformed case: unknown order " + c.Order}
+	}
+	final := &c.Msg
+	want := m
+	var hclasses []string
+	if len(c.Hist) > 0 {
+		var o *ev.Outcome
+		final, want, hclasses, o = c12RunHist(c, m, ty, &bi)
+		if o != nil {
+			return *o
+		}
+	}
+	classes, nt := c12Classes(c.Origin, final, ty)
+	if len(c.Hist) > 0 {
+		if _, nt1 := c12Classes(c.Origin, &c.Msg, ty); nt1 {
+			nt = true
+		}
+	}
+	classes = append(classes, hclasses...)
+	if vtFirst {
+		classes = append(classes, "order:vt-first")
+	} else {
+		classes = append(classes, "order:proto-first")
+	}
+	verdict, hist, hasVT := c12Judge(m, want, ty, vtFirst)
 	if verdict != "" {
+		if len(c.Hist) > 0 {
+			verdict = "after the history (encode/decode calls and in-place modification of one message object): " + verdict
+		}
 		o := ev.Failf("%s", verdict)
 		o.History = hist
 		o.Classes = classes
